@@ -25,12 +25,15 @@ def build_vh(work, race=False):
     return src, out
 
 
+EXACT_REPLAY = {"C01", "C02", "C04", "C05", "C10"}
+
+
 def simple(prop, level, rule, assumptions, batches=(8, 16), timeout=(600, 3000), min_nontrivial=2, exhaustive=None):
     def run(p, tier, work, t0, replay):
         _src, vh = build_vh(work)
         nb = batches[0] if tier == "quick" else batches[1]
         to = timeout[0] if tier == "quick" else timeout[1]
-        if replay:
+        if replay and p in EXACT_REPLAY:
             case = os.path.join(work, "replay-case.json")
             with open(replay) as f:
                 doc = json.load(f)
